@@ -53,7 +53,7 @@ func FSOps(c FSCfg) []string {
 	for _, s := range ss {
 		ops = append(ops, fmt.Sprintf("w%d", s))
 	}
-	return append(ops, "reopen", "extrotate", "+1ns", "+31ms")
+	return append(ops, "reopen", "extrotate", "extrename", "+1ns", "+31ms")
 }
 
 // FSRunHistory executes one operation history on a fresh sink and directory
@@ -81,6 +81,8 @@ func FSRunHistory(c FSCfg, hist []string, c15 bool, scratch string) (viol string
 				v = w.Reopen()
 			case op == "extrotate":
 				v = w.ExternalRotate()
+			case op == "extrename":
+				v = w.ExternalRename()
 			case op == "+1ns":
 				v = w.Advance(time.Nanosecond)
 			case op == "+31ms":
